@@ -725,7 +725,7 @@ static int fam_proj(Choice& c, Report& rep) {
           bool inrange = sum16 >= -32768 && sum16 <= 32767;
           if (!inrange) {
             f6_samples++;
-            if (rep.exclude("F6")) continue;     // known: the library wraps (opus_int16 accumulator); saturation clause skipped
+            // fixed finding F6 (repo commit recorded in known_findings.json): the saturation clause is checked for every sample
             opus_int16 sat = sum16 > 32767 ? 32767 : -32768;
             if (ps.p[o] != sat) {
               if (ps.p[o] == wrap16(sum16))
